@@ -75,7 +75,8 @@ def validate(module: str, cfg: str, traces: list, *, shards: int = 16, max_per_s
                                  (module, cfg, r.violated or r.error, r.output[-3000:]))
         for p in r.prints:
             if p and p[0] == "VERDICT":
-                verdicts[p[1]] = {"accept": p[2] == "accept", "failed": sorted(p[3]) if len(p) > 3 else []}
+                verdicts[p[1]] = {"accept": p[2] == "accept", "failed": sorted(p[3]) if len(p) > 3 else [],
+                                  "info": p[4] if len(p) > 4 else None}
     missing = [t for t in tids if t not in verdicts]
     if missing:
         raise MachineryError("no verdict for %d traces of %s (e.g. tid %s)\n%s" %
